@@ -256,6 +256,8 @@ def gen_species(rng, tier, focus):
             edges, names, pos, info = gen_reference(rng, n, geometry)
     else:
         edges = [(0, 1)] if n == 2 else []
+        if n == 2 and rng.random() < 0.25:
+            edges = []          # a rigid two-site model whose topology lists no bond, constraint or pair at all
         names = [gen.atom_name(rng, i) for i in range(n)]
         if n == 2 and rng.random() < 0.4:
             pos, d = collinear_positions(rng, 2, rng.choice(["axis", "diagonal", "intdir"]))
